@@ -24,10 +24,10 @@ func c03FixtureTree() *hx.Node {
 func c03Alphabet() []hx.Req {
 	P := func(op, p string) hx.Req { return hx.Req{Op: op, Path: hx.BStr(p)} }
 	return []hx.Req{
-		P("OPEN_DIR", "/d1"), P("OPEN_DIR", "/missing"), P("OPEN_DIR", "/f1"),
+		P("OPEN_DIR", "/d1"), P("OPEN_DIR", "/missing"), P("OPEN_DIR", "/f1"), P("OPEN_DIR", "/***DVD***/d1"),
 		{Op: "READ_DIR"}, {Op: "READ_ENTRY"}, {Op: "READ_ENTRY2"},
 		P("STAT", "/f1"), P("STAT", "/d1"), P("STAT", "/nope"),
-		P("OPEN_FILE", "/f1"), P("OPEN_FILE", "/missing"), P("OPEN_FILE", "/d1"), P("OPEN_FILE", "/CLOSEFILE"),
+		P("OPEN_FILE", "/f1"), P("OPEN_FILE", "/missing"), P("OPEN_FILE", "/d1"), P("OPEN_FILE", "/CLOSEFILE"), P("OPEN_FILE", "/***DVD***/d1"),
 		{Op: "READ_FILE", N: 100, Off: 10}, {Op: "READ_FILE", N: 4000, Off: 4000},
 		{Op: "READ_CRIT", N: 100, Off: 10}, {Op: "READ_CRIT", N: 10, Off: 4995},
 		{Op: "READ_CD", Start: 0, Count: 1}, {Op: "READ_CD", Start: 1, Count: 2},
